@@ -264,7 +264,7 @@ def gen_cases(rec, rng, tier):
     for R in common.shard_slice(fag.enum_dfas(3, 2), rec):
         yield {'kind': 'dfa', 'cls': 'enum_dfa', 'ref': R, 'ns': ns}
     for i, R in enumerate(common.shard_slice(fag.enum_nfas(2, 2), rec)):
-        yield {'kind': 'nfa', 'cls': 'enum_nfa', 'ref': R, 'ns': ns, 'eps': ('', '_')[i % 2], 'container': adapt.NFA_KINDS[i % 4]}
+        yield {'kind': 'nfa', 'cls': 'enum_nfa', 'ref': R, 'ns': ns, 'eps': ('', '_')[i % 2], 'container': adapt.NFA_KINDS[i % 5]}
     for t in common.shard_slice(rxg.enum_trees(5), rec):
         yield {'kind': 'rx', 'cls': 'enum_tree', 'ref': t, 'ns': ns}
     for t in common.shard_slice(rxg.enum_trees(5, rxg.LEAVES01), rec):
@@ -274,7 +274,7 @@ def gen_cases(rec, rng, tier):
     # hostile families
     for (cls, R) in fag.hostile_nfas(rng):
         if rec.shard % 4 == 0:
-            yield {'kind': 'nfa', 'cls': cls, 'ref': R, 'ns': ns, 'eps': 'ε', 'container': adapt.NFA_KINDS[rng.randrange(4)]}
+            yield {'kind': 'nfa', 'cls': cls, 'ref': R, 'ns': ns, 'eps': 'ε', 'container': adapt.NFA_KINDS[rng.randrange(5)]}
     for (cls, R) in fag.hostile_dfas(rng):
         if rec.shard % 4 == 1:
             yield {'kind': 'dfa', 'cls': 'dfa_' + cls, 'ref': R, 'ns': big}
@@ -286,6 +286,9 @@ def gen_cases(rec, rng, tier):
         for j, lim in enumerate((3, 10, 50, 1000)):
             if (i + j) % 4 == rec.shard % 4 and RP[1]:
                 yield {'kind': 'pda', 'cls': 'pda_' + cls, 'ref': RP, 'ns': [0, 1, 2, 3] if lim == 1000 else ns, 'limit': lim, 'eps': ('', '_')[j % 2]}
+    for i, (cls, RPa) in enumerate(pdag.concatenation_ambiguous_stacks()):
+        if i % 4 == rec.shard % 4:
+            yield {'kind': 'pda', 'cls': 'pda_' + cls, 'ref': RPa, 'ns': [0, 1, 2, 3], 'limit': 50, 'eps': ''}
     if rec.shard == 3:
         for (name, RP, eps) in pdag.shipped_pdas(env.REPO):
             yield {'kind': 'pda', 'cls': 'shipped_' + name, 'ref': RP, 'ns': [0, 1, 2, 3, 4], 'limit': 1000, 'eps': eps}
